@@ -365,6 +365,7 @@ def listing(chk, P):
         "EAM-Density": {"A->B": "as.zero"},
         "Table-Form:t": {"x": "1 2", "y": "1 2"},
         "Table-Form: u": {"xy": "1 2"},
+        "Table-Form : w": {"xw": "1 2"},     # whatever the parser makes of this header, its item is an item of the file
         "Species": {"A.atomic_mass": "1"},
         "EAM-ADP-Dipole": {"A-B": "as.zero"},
         "Something-Else": {"k": "v"},
